@@ -57,11 +57,12 @@ class FrechetAudioDistance(Metric[torch.Tensor]):
         model_input = model_input.to(self.device)
         return self.model(model_input)
 
-    def _update_state(self, state_prefix: str, waveforms: torch.Tensor) -> None:
-        n = getattr(self, f"{state_prefix}_n")
-        mean_partial = getattr(self, f"{state_prefix}_mean_partial")
-        cov_partial = getattr(self, f"{state_prefix}_cov_partial")
-
+    def _partial_sums(
+        self, waveforms: torch.Tensor
+    ) -> tuple[int, torch.Tensor, torch.Tensor]:
+        n = 0
+        mean_partial = torch.zeros_like(self.pred_mean_partial)
+        cov_partial = torch.zeros_like(self.pred_cov_partial)
         for idx in range(waveforms.size(0)):
             embedding = self._compute_embedding(
                 waveforms[idx]
@@ -69,10 +70,18 @@ class FrechetAudioDistance(Metric[torch.Tensor]):
             n += embedding.size(0)
             mean_partial += embedding.sum(0).unsqueeze(0)
             cov_partial += embedding.T @ embedding
+        return n, mean_partial, cov_partial
 
-        setattr(self, f"{state_prefix}_n", n)
-        setattr(self, f"{state_prefix}_mean_partial", mean_partial)
-        setattr(self, f"{state_prefix}_cov_partial", cov_partial)
+    def _update_state(
+        self,
+        state_prefix: str,
+        n: int,
+        mean_partial: torch.Tensor,
+        cov_partial: torch.Tensor,
+    ) -> None:
+        setattr(self, f"{state_prefix}_n", getattr(self, f"{state_prefix}_n") + n)
+        getattr(self, f"{state_prefix}_mean_partial").add_(mean_partial)
+        getattr(self, f"{state_prefix}_cov_partial").add_(cov_partial)
 
     @torch.inference_mode()
     # pyre-ignore[14]: inconsistent override on *_:Any, **__:Any
@@ -86,8 +95,12 @@ class FrechetAudioDistance(Metric[torch.Tensor]):
             targets (torch.Tensor): Target waveforms, with shape (C, U)
 
         """
-        self._update_state("pred", preds)
-        self._update_state("target", targets)
+        # embed both arguments before touching any state, so that a failure
+        # (bad shape, dtype, ...) in either of them leaves the metric unchanged
+        pred_sums = self._partial_sums(preds)
+        target_sums = self._partial_sums(targets)
+        self._update_state("pred", *pred_sums)
+        self._update_state("target", *target_sums)
         return self
 
     @torch.inference_mode()
